@@ -42,16 +42,20 @@ theorem parseU32_inv {b : Bytes} {n : Nat} {r : Bytes} (h : parseU32 b = some (n
 
 theorem putU32_length (n : Nat) : (putU32 n).length = 4 := rfl
 
+theorem u8_ofNat_eq {a b : Nat} (h : a % 256 = b % 256) : UInt8.ofNat a = UInt8.ofNat b := by
+  apply UInt8.toNat_inj.mp; simp only [u8_toNat, h]
+
+theorem putU32_congr {n m : Nat} (h : n % 4294967296 = m % 4294967296) : putU32 n = putU32 m := by
+  simp only [putU32, List.cons.injEq, and_true]
+  exact ⟨u8_ofNat_eq (by omega), u8_ofNat_eq (by omega), u8_ofNat_eq (by omega), u8_ofNat_eq (by omega)⟩
+
 theorem parseU64_putU64 (n : Nat) (h : n < 18446744073709551616) (r : Bytes) :
     parseU64 (putU64 n ++ r) = some (n, r) := by
   unfold parseU64 putU64
   have h1 : n / 4294967296 < 4294967296 := by omega
   rw [List.append_assoc, parseU32_putU32 _ h1]
   simp only
-  have h2 : putU32 n = putU32 (n % 4294967296) := by
-    simp only [putU32]
-    refine congrArg₂ _ ?_ (congrArg₂ _ ?_ (congrArg₂ _ ?_ (congrArg₂ _ ?_ rfl))) <;>
-      (apply UInt8.toNat_inj.mp; simp only [u8_toNat]; omega)
+  have h2 : putU32 n = putU32 (n % 4294967296) := putU32_congr (by omega)
   rw [h2, parseU32_putU32 _ (by omega)]
   simp only [Option.some.injEq, Prod.mk.injEq, and_true]
   omega
@@ -75,10 +79,7 @@ theorem parseU64_inv {b : Bytes} {n : Nat} {r : Bytes} (h : parseU64 b = some (n
       obtain ⟨e2, l2⟩ := parseU32_inv h2
       refine ⟨?_, by omega⟩
       have d1 : n / 4294967296 = hi := by omega
-      have d2 : putU32 n = putU32 lo := by
-        simp only [putU32]
-        refine congrArg₂ _ ?_ (congrArg₂ _ ?_ (congrArg₂ _ ?_ (congrArg₂ _ ?_ rfl))) <;>
-          (apply UInt8.toNat_inj.mp; simp only [u8_toNat]; omega)
+      have d2 : putU32 n = putU32 lo := putU32_congr (by omega)
       rw [e1, e2, putU64, d1, d2, List.append_assoc]
 
 /-! ## strings -/
@@ -108,7 +109,7 @@ theorem parseString_inv {b s r : Bytes} (h : parseString b = some (s, r)) :
       rw [putString, hlen, e1, List.append_assoc, ← hs, ← hr, List.take_append_drop]
 
 theorem putString_length (s : Bytes) : (putString s).length = 4 + s.length := by
-  simp [putString, putU32_length]; omega
+  simp [putString, putU32_length]
 
 theorem parseString_length {b s r : Bytes} (h : parseString b = some (s, r)) :
     b.length = 4 + s.length + r.length := by
@@ -116,24 +117,32 @@ theorem parseString_length {b s r : Bytes} (h : parseString b = some (s, r)) :
   rw [e]; simp [putString_length]
 
 /-! ## lists of strings -/
+theorem putString_append_isEmpty (s x : Bytes) : (putString s ++ x).isEmpty = false := by
+  simp only [putString, putU32, List.cons_append, List.isEmpty_cons]
+
+theorem putStrings_cons (s : Bytes) (t : List Bytes) : putStrings (s :: t) = putString s ++ putStrings t := by
+  simp only [putStrings, List.map_cons, List.flatten_cons]
 
 theorem parseStringsGo_put (l : List Bytes) (hl : ∀ s ∈ l, s.length < 4294967296) :
     ∀ f, (putStrings l).length ≤ f → parseStringsGo f (putStrings l) = some l := by
   induction l with
-  | nil => intro f _; cases f <;> simp [parseStringsGo, putStrings]
+  | nil =>
+    intro f _
+    cases f with
+    | zero => rfl
+    | succ f => rfl
   | cons s t ih =>
     intro f hf
-    have hs := hl s (by simp)
-    have ht : ∀ x ∈ t, x.length < 4294967296 := fun x hx => hl x (by simp [hx])
-    have e : putStrings (s :: t) = putString s ++ putStrings t := by simp [putStrings]
-    rw [e] at hf ⊢
+    have hs := hl s (List.mem_cons_self ..)
+    have ht : ∀ x ∈ t, x.length < 4294967296 := fun x hx => hl x (List.mem_cons_of_mem _ hx)
+    rw [putStrings_cons] at hf ⊢
+    rw [List.length_append, putString_length] at hf
     cases f with
-    | zero => simp [putString_length] at hf
+    | zero => omega
     | succ f =>
-      have hne : (putString s ++ putStrings t).isEmpty = false := by
-        simp [putString, putU32]
-      simp only [parseStringsGo, hne, Bool.false_eq_true, ↓reduceIte, parseString_putString s hs]
-      rw [ih ht f (by simp [putString_length] at hf; omega)]
+      rw [parseStringsGo, putString_append_isEmpty]
+      simp only [Bool.false_eq_true, ↓reduceIte, parseString_putString s hs]
+      rw [ih ht f (by omega)]
       rfl
 
 theorem parseStrings_putStrings (l : List Bytes) (hl : ∀ s ∈ l, s.length < 4294967296) :
@@ -146,29 +155,32 @@ theorem parseStringsGo_inv : ∀ (f : Nat) (b : Bytes) (l : List Bytes),
   induction f with
   | zero =>
     intro b l h
-    simp only [parseStringsGo] at h
     cases b with
-    | nil => simp at h; subst h; rfl
-    | cons => simp at h
+    | nil =>
+      simp only [parseStringsGo, List.isEmpty_nil, ↓reduceIte, Option.some.injEq] at h
+      subst h; rfl
+    | cons a t => simp only [parseStringsGo, List.isEmpty_cons, Bool.false_eq_true, ↓reduceIte, reduceCtorEq] at h
   | succ f ih =>
     intro b l h
-    simp only [parseStringsGo] at h
     cases b with
-    | nil => simp at h; subst h; rfl
+    | nil =>
+      simp only [parseStringsGo, List.isEmpty_nil, ↓reduceIte, Option.some.injEq] at h
+      subst h; rfl
     | cons a t =>
+      rw [parseStringsGo] at h
       simp only [List.isEmpty_cons, Bool.false_eq_true, ↓reduceIte] at h
       cases hp : parseString (a :: t) with
-      | none => simp [hp] at h
+      | none => rw [hp] at h; simp only [reduceCtorEq] at h
       | some p =>
         obtain ⟨s, r⟩ := p
-        simp only [hp, Option.map_eq_some_iff] at h
+        rw [hp] at h
+        simp only [Option.map_eq_some_iff] at h
         obtain ⟨l', hl', rfl⟩ := h
-        have := ih r l' hl'
+        have e2 := ih r l' hl'
         obtain ⟨e, _⟩ := parseString_inv hp
-        rw [e, this]; simp [putStrings]
+        rw [e, e2, putStrings_cons]
 
 /-- the principals field is canonical -/
 theorem parseStrings_inv {b : Bytes} {l : List Bytes} (h : parseStrings b = some l) : b = putStrings l :=
   parseStringsGo_inv _ _ _ h
-
 end XC.C38
